@@ -2847,6 +2847,13 @@ func (p *Parser) parseUnaryExpr() (Expr, error) {
 
 // parseRegex parses a regular expression.
 func (p *Parser) parseRegex() (*RegexLiteral, error) {
+	// The look-ahead below inspects the rune reader. That is only meaningful
+	// when no token is pushed back: otherwise the next token is the buffered
+	// one, which is never the start of a regular expression.
+	if p.s.n > 0 {
+		return nil, nil
+	}
+
 	nextRune := p.peekRune()
 	if isWhitespace(nextRune) {
 		p.consumeWhitespace()
